@@ -476,17 +476,9 @@ def _opts(o):
   return 0, None
 
 
-def build_bytes(spec: Spec, empty_buffer=None) -> bytearray:
-  """empty_buffer: None | 'tensor' (an unused zero-element int32 constant whose buffer carries a
-  present-but-empty data vector) | 'orphan' (such a buffer referenced by no tensor). Both are
-  legal TFLite; the TF converter normally omits the data field instead."""
-  m = sch.ModelT()
-  m.version = 3
-  m.description = 'aeq-sim generated'
-  m.buffers = [sch.BufferT()]
-  codes, code_idx = [], {}
+def _add_subgraph(m, codes, code_idx, spec, name):
   sg = sch.SubGraphT()
-  sg.name = 'main'
+  sg.name = name
   sg.tensors = []
   for t in spec.tensors:
     ft = sch.TensorT()
@@ -515,24 +507,15 @@ def build_bytes(spec: Spec, empty_buffer=None) -> bytearray:
     fo.outputs = np.array(o['outputs'], dtype=np.int32)
     fo.builtinOptionsType, fo.builtinOptions = _opts(o)
     sg.operators.append(fo)
-  if empty_buffer:
-    eb = sch.BufferT()
-    eb.data = np.array([], dtype=np.uint8)
-    m.buffers.append(eb)
-    if empty_buffer == 'tensor':
-      et = sch.TensorT()
-      et.name = b'aux/empty_const'
-      et.shape = np.array([0], dtype=np.int32)
-      et.type = I32
-      et.buffer = len(m.buffers) - 1
-      sg.tensors.append(et)
   sg.inputs = np.array(spec.inputs, dtype=np.int32)
   sg.outputs = np.array(spec.outputs, dtype=np.int32)
-  m.operatorCodes = codes
-  m.subgraphs = [sg]
+  return sg
+
+
+def _signature(spec, key, subgraph_index):
   sd = sch.SignatureDefT()
-  sd.signatureKey = b'serving_default'
-  sd.subgraphIndex = 0
+  sd.signatureKey = key.encode()
+  sd.subgraphIndex = subgraph_index
   sd.inputs, sd.outputs = [], []
   for nm, i in zip(spec.sig_in, spec.inputs):
     tm = sch.TensorMapT()
@@ -544,7 +527,75 @@ def build_bytes(spec: Spec, empty_buffer=None) -> bytearray:
     tm.name = nm.encode()
     tm.tensorIndex = i
     sd.outputs.append(tm)
-  m.signatureDefs = [sd]
+  return sd
+
+
+def build_bytes(spec: Spec, empty_buffer=None) -> bytearray:
+  """empty_buffer: None | 'tensor' (an unused zero-element int32 constant whose buffer carries a
+  present-but-empty data vector) | 'orphan' (such a buffer referenced by no tensor). Both are
+  legal TFLite; the TF converter normally omits the data field instead."""
+  m = sch.ModelT()
+  m.version = 3
+  m.description = 'aeq-sim generated'
+  m.buffers = [sch.BufferT()]
+  codes, code_idx = [], {}
+  sg = _add_subgraph(m, codes, code_idx, spec, 'main')
+  if empty_buffer:
+    eb = sch.BufferT()
+    eb.data = np.array([], dtype=np.uint8)
+    m.buffers.append(eb)
+    if empty_buffer == 'tensor':
+      et = sch.TensorT()
+      et.name = b'aux/empty_const'
+      et.shape = np.array([0], dtype=np.int32)
+      et.type = I32
+      et.buffer = len(m.buffers) - 1
+      sg.tensors.append(et)
+  m.operatorCodes = codes
+  m.subgraphs = [sg]
+  m.signatureDefs = [_signature(spec, 'serving_default', 0)]
+  return bytearray(flatbuffer_utils.convert_object_to_bytearray(m))
+
+
+class MultiSpec:
+  """A model with several independent subgraphs, one signature each."""
+  multi = True
+
+  def __init__(self, specs, sig_keys):
+    self.specs, self.sig_keys = specs, sig_keys
+    p = specs[0]
+    self.tensors, self.ops, self.inputs, self.outputs = p.tensors, p.ops, p.inputs, p.outputs
+    self.sig_in, self.sig_out = p.sig_in, p.sig_out
+
+  def op_types(self):
+    return [t for sp in self.specs for t in sp.op_types()]
+
+  def qnames_present(self):
+    out = []
+    for sp in self.specs:
+      for q in sp.qnames_present():
+        if q not in out:
+          out.append(q)
+    return out
+
+  def scopes(self):
+    return [sc for sp in self.specs for sc in sp.scopes()]
+
+  def tensor_names(self):
+    return [n for sp in self.specs for n in sp.tensor_names()]
+
+
+def build_bytes_multi(ms: MultiSpec) -> bytearray:
+  m = sch.ModelT()
+  m.version = 3
+  m.description = 'aeq-sim generated (multi-signature)'
+  m.buffers = [sch.BufferT()]
+  codes, code_idx = [], {}
+  m.subgraphs, m.signatureDefs = [], []
+  for k, (sp, key) in enumerate(zip(ms.specs, ms.sig_keys)):
+    m.subgraphs.append(_add_subgraph(m, codes, code_idx, sp, 'main' if k == 0 else 'sub%d' % k))
+    m.signatureDefs.append(_signature(sp, key, k))
+  m.operatorCodes = codes
   return bytearray(flatbuffer_utils.convert_object_to_bytearray(m))
 
 
@@ -607,6 +658,16 @@ def get_model(desc):
   if desc['kind'] == 'gen':
     spec = _Gen(desc['seed'], desc.get('max_ops', 6), desc.get('bias')).run()
     b = build_bytes(spec, desc.get('empty_buffer'))
+  elif desc['kind'] == 'gen2':
+    specs = []
+    for k in range(2):
+      sp = _Gen(desc['seed'] + 7919 * k, desc.get('max_ops', 4), desc.get('bias')).run()
+      if k:
+        for t in sp.tensors:          # tensor names must be unique across subgraphs
+          t['name'] = 'g2/' + t['name']
+      specs.append(sp)
+    spec = MultiSpec(specs, ['sig_a', 'sig_b'])
+    b = build_bytes_multi(spec)
   else:
     with open(os.path.join(CORPUS_DIR, desc['name'] + '.tflite'), 'rb') as f:
       b = bytearray(f.read())
@@ -622,6 +683,8 @@ def model_path(desc):
 
 def gen_dataset(spec: Spec, ddesc):
   """ddesc = {seed, n, dist, scales} -> list of {signature arg: array}."""
+  if getattr(spec, 'multi', False):
+    spec = spec.specs[ddesc.get('sig', 0)]
   rng = np.random.default_rng(ddesc['seed'] % (2**32))
   out = []
   for k in range(ddesc['n']):
